@@ -29,6 +29,7 @@ Variable keqb : K -> K -> bool.
 Definition value_at (d : sdesc) (k : akind) (s w : K) : option K :=
   match d, k with
   | SDc v, KDc => Some v
+  | SDc v, KTime => Some v | SStep v, KTime => Some v     (* resistive time-domain analysis, evaluated at an instant t0 > 0 *)
   | SDc v, KIvp => Some (v / s)
   | SDc v, KS => Some 0 | SDc v, KTransient => Some 0 | SDc v, KAc => Some 0
   | SStep v, KS => Some (v / s) | SStep v, KIvp => Some (v / s)
